@@ -17,6 +17,7 @@ SPELL = ['rel', 'abs', 'trail1', 'trail2', 'trail3', 'abs_trail',
 def config(tier):
     return {
         'level': 'exploration',
+        'real_sample': 8 if tier == 'quick' else 60,
         'cases': 3500 if tier == 'quick' else 80000,
         'budget_s': 45 if tier == 'quick' else 560,
         'floors': {'cases': 250, 'links_trashed': 150, 'restored_ok': 100,
